@@ -128,15 +128,8 @@ fn expr_inner(e: &Expression) -> J {
     }
     macro_rules! un {
         ($op:expr, $value:expr, $loc:expr) => {
-            // `location` of a unary node is the operator's location
-            item("unary", $loc, json!({"op": $op, "own": "operator"}), vec![])
-                .as_object()
-                .map(|o| {
-                    let mut o = o.clone();
-                    o.insert("operand".into(), expr($value));
-                    J::Object(o)
-                })
-                .unwrap()
+            // the stored `location` is the operator's; the node spans the operator and its operand
+            item("unary", &l, json!({"op": $op, "computed": true}), vec![tok("op", $loc, $op), expr($value)])
         };
     }
     match e {
